@@ -213,6 +213,9 @@ func parseSpecFile(path, pkg string) (*SpecFile, error) {
 	var lines []ll
 	for i, raw := range strings.Split(string(data), "\n") {
 		t := strings.TrimSpace(raw)
+		if strings.HasPrefix(t, "// @") { // gofmt rewrites //@ to // @ inside doc comments
+			t = "//@" + t[4:]
+		}
 		if !strings.HasPrefix(t, "//@") {
 			continue
 		}
